@@ -23,9 +23,16 @@ func c04Run(t gen.TB, w *gen.World, desc string, keyHint string) {
 	g := w.NewGetter()
 	o := w.Options(gen.LvlColl, g, nil)
 	msg := w.Q.ToProto()
+	// the options value may have been in use: earlier calls that failed at one stage or another (see optionsPrehistory)
+	pk := prehistoryKind(w.Raw)
+	if ph := optionsPrehistory(w.Raw, o, pk, w.NewGetter()); ph != "" {
+		desc += " [" + ph + "]"
+		gen.Class("options-value-used-before")
+	}
 	gen.Eval()
 	v := gen.Call(func() error { return verify.TdxQuote(msg, o) })
 	rp := w.CaseFile(gen.LvlColl, nil, nil, nil, map[bool]string{true: "accept", false: "reject"}[m.Accept])
+	rp["prehistory"] = pk
 	if v.Panicked() {
 		gen.Fail(t, gen.Violation{Key: "panic@" + gen.PanicSite(v.Stack), Oracle: "verification returns a verdict", Detail: desc + ": " + v.Panic, Replay: rp})
 		return
